@@ -168,16 +168,25 @@ def gen_sleepers(rng):
               + [{'y': rng.choice([None, 1, 2]), 'acts': []}
                  for _ in range(rng.randint(0, 2))],
               'ret': k % len(RETS)} for k in range(nc)]
+    # every fourth population sleeps for hours (one time unit = 512 s: the
+    # processor's clock gets large while somebody is always asleep), and
+    # the restarts then come after some of that time has passed
+    scale = 512 if rng.random() < 0.25 else 1
+    if scale != 1:
+        for c in coros:
+            for step in c['script']:
+                if step['y']:
+                    step['y'] = step['y'] * scale
     ops = [['start', k] for k in range(nc)]
-    ops.append(['process', rng.choice([0, 1])])
-    for _ in range(rng.randint(0, 2)):
-        ops.append(['process', 1])
+    ops.append(['process', rng.choice([0, 1]) * scale])
+    for _ in range(rng.randint(0, 2) if scale == 1 else rng.randint(4, 12)):
+        ops.append(['process', scale])
     for k in rng.sample(range(nc), rng.randint(1, 3)):
         ops.append(['kill', k, rng.random() < 0.5])
         if rng.random() < 0.3:
             ops.append(['state', k])
         ops.append(['start', k])
-    ops += [['process', rng.choice([1, 1, 1, 0.5, 2])]
+    ops += [['process', rng.choice([1, 1, 1, 0.5, 2]) * scale]
             for _ in range(4 * nc + 4)]
     return {'mode': 'main', 'coros': coros, 'ops': ops}
 
